@@ -175,6 +175,9 @@ func (p c16Prop) Run(seed uint64, tier string, tr *core.Trace) *RunOut {
 		})
 		out.Trace, out.HarnessErr = tr, h
 		out.NonTrivial = x.ntReverts > 0 || x.ntMsgs > 0
+		if x.known != nil {
+			out.Violations = append(out.Violations, *x.known)
+		}
 		if x.viol != nil {
 			out.Violations = append(out.Violations, *x.viol)
 		}
@@ -187,6 +190,7 @@ func (p c16Prop) Run(seed uint64, tier string, tr *core.Trace) *RunOut {
 		v core.Violation
 	}
 	byClass := map[string]found{}
+	var knownFound *found
 	mk := func(conf c16Conf, ops []c16Op) *core.Trace {
 		extra, _ := json.Marshal(conf)
 		t := &core.Trace{Property: "C16", Seed: seed, Extra: extra, Steps: []*core.Step{{Kind: "boot"}}}
@@ -237,6 +241,12 @@ func (p c16Prop) Run(seed uint64, tier string, tr *core.Trace) *RunOut {
 		if b == 0 && out.Trace == nil {
 			out.Trace = mk(g.conf, ops)
 		}
+		if x.known != nil {
+			out.Stats.Probes["case_known_finding"]++
+			if knownFound == nil {
+				knownFound = &found{t: mk(g.conf, ops), v: *x.known}
+			}
+		}
 		if x.viol != nil {
 			out.Stats.Probes["case_violating"]++
 			out.Stats.Probes["viol_"+x.viol.Oracle+"/"+x.viol.Sig]++
@@ -277,6 +287,10 @@ func (p c16Prop) Run(seed uint64, tier string, tr *core.Trace) *RunOut {
 		return out
 	}
 	out.NonTrivial = len(out.SubFP) > 0
+	if knownFound != nil {
+		out.Trace = knownFound.t
+		out.Violations = append(out.Violations, knownFound.v)
+	}
 	return out
 }
 
